@@ -1,5 +1,5 @@
 /* contracts of pool_t::map (chunked and un-chunked) for one element type NV_TSIZE; see pool.h for the statement */
-#include "pool.h"
+#include "section.h"
 
 NV_TSIZE nv_elements, nv_chunk;   /* ghost copies of the inputs (equated with the parameters in `requires`) */
 uint64_t nv_pool_size;            /* ghost copy of pool_t::size() */
@@ -7,7 +7,7 @@ NV_TSIZE nv_covered;              /* coverage ghost: [0, nv_covered) has been ge
 uint64_t nv_ncalls;               /* ranges handed to the operator directly */
 uint64_t nv_nenq;                 /* ranges captured into enqueued tasks */
 uint64_t nv_reserved;             /* count passed to section.reserve */
-_Bool nv_reserve_called, nv_notified, nv_blocked, nv_block_raise, nv_waited_all;
+_Bool nv_reserve_called, nv_notified, nv_blocked, nv_block_raise, nv_dtor_ran;
 NV_TSIZE nv_w_begin, nv_w_end; uint64_t nv_w_tnum;   /* witnesses for replay: the last generated range */
 
 /* the next range of the tiling of [0, elements) in chunks: stated without begin + chunk (no overflow in the spec) */
@@ -80,41 +80,50 @@ static void nv_section_emplace_back(struct nv_section* s, struct nv_future f)
   __CPROVER_assert(f.valid, "section: the stored future belongs to a task");
   if (s->size == 0) s->first_id = f.id;
   __CPROVER_assert(f.id == s->first_id + s->size, "section: futures are stored once each, in task order");
+  if (f.id == nv_gid) nv_g_valid = f.valid;     /* ghost: what is stored for the ghost task (section.h) */
   s->size = s->size + 1;
 }
 static void nv_notify_all(struct nv_cond* c) { nv_notified = 1; }                    /* condition_variable::notify_all */
-/* section_t::block(raise) (verified against its own contract in target section_block): waits for the stored futures;
- * with raise set it may leave by re-throwing a task's exception, before every future was waited for */
+/* section_t::block(raise) and ~section_t(): the REAL functions, called through their contracts (section.h; proved in targets
+ * section_block / section_dtor; here: --replace-call-with-contract).  The wrappers add what map must have done before. */
+void section_dtor(struct nv_section* self);
 static void nv_section_block(struct nv_section* s, _Bool raise)
 {
   __CPROVER_assert(!nv_mutex_held, "block: the queue mutex was released before waiting for the tasks (else no worker can pop)");
   __CPROVER_assert(nv_notified, "block: the workers were notified after the tasks were pushed (enqueue_no_lock does not notify)");
   __CPROVER_assert(s->size == nv_nenq, "block: the section holds exactly one future per enqueued task");
   nv_blocked = 1; nv_block_raise = raise;
-  if (raise && nv_nondet__Bool()) nv_thrown = 1;
+  nv_call_block(s, raise);
 }
-/* section_t::~section_t() = block(false) (target section_dtor): waits for every stored future, never throws.  Runs when
- * `section` goes out of scope, on the normal and on the exceptional path (scope-exit destructor, printed by cxx2c). */
+/* runs when `section` goes out of scope, on the normal and on the exceptional path (scope-exit destructor, printed by cxx2c);
+ * a destructor that runs during stack unwinding must not throw itself (std::terminate): the exception in flight is set aside */
 static void nv_section_dtor(struct nv_section* s)
 {
   __CPROVER_assert(!nv_mutex_held, "~section_t: the queue mutex was released before waiting for the tasks");
   __CPROVER_assert(nv_notified, "~section_t: the workers were notified");
-  __CPROVER_assert(s->size == nv_nenq, "~section_t: the section holds exactly one future per enqueued task");
-  nv_waited_all = 1;
+  _Bool in_flight = nv_thrown;
+  nv_thrown = 0; nv_visits = 0; nv_g_got = 0; nv_g_waited = 0;
+  section_dtor(s);
+  __CPROVER_assert(!nv_thrown, "~section_t does not throw (std::terminate while unwinding)");
+  nv_thrown = in_flight; nv_dtor_ran = 1;
 }
 
 /* ---- contract of pool_t::map(elements, chunksize, op, raise) --------------------------------------------------- */
-#define NV_MAP_GHOST_INIT (nv_covered == 0 && nv_ncalls == 0 && nv_nenq == 0 && !nv_reserve_called && !nv_notified && !nv_blocked && !nv_waited_all && !nv_mutex_held)
+#define NV_MAP_GHOST_INIT (nv_covered == 0 && nv_ncalls == 0 && nv_nenq == 0 && !nv_reserve_called && !nv_notified && !nv_blocked && !nv_dtor_ran && !nv_mutex_held && !nv_g_seen)
 #define NV_MAP_FRESH __CPROVER_is_fresh(self, sizeof(*self)) && __CPROVER_is_fresh(op, sizeof(*op))
-#define NV_MAP_ASSIGNS __CPROVER_assigns(self->m_queue.m_tasks.size, nv_covered, nv_ncalls, nv_nenq, nv_reserved, nv_reserve_called, nv_notified, nv_blocked, nv_block_raise, nv_waited_all, nv_thrown, nv_mutex_held, nv_w_begin, nv_w_end, nv_w_tnum)
+#define NV_MAP_ASSIGNS __CPROVER_assigns(self->m_queue.m_tasks.size, nv_covered, nv_ncalls, nv_nenq, nv_reserved, nv_reserve_called, nv_notified, nv_blocked, nv_block_raise, nv_dtor_ran, nv_mutex_held, nv_w_begin, nv_w_end, nv_w_tnum, nv_g_valid, NV_BLOCK_GHOSTS)
+/* the ghost task nv_gid is one of the tasks this call enqueued (ids old(head + size) .. + nv_nenq - 1) */
+#define NV_MAP_G NV_HOLDS(__CPROVER_old(self->m_queue.m_tasks.head) + __CPROVER_old(self->m_queue.m_tasks.size), nv_nenq)
 /* which branch runs is the implementation's business; whichever it is: only one of them generates ranges, something is
  * generated iff elements > 0, and if tasks were enqueued the call blocked on all of them with the caller's `raise` flag
  * and -- exception or not -- returned only after ~section_t waited for every one of them; an exception can only leave
  * map when the caller asked for it and tasks were enqueued (the operator itself is assumed not to throw here). */
 #define NV_MAP_ENSURES_PROTOCOL \
 __CPROVER_ensures((nv_ncalls == 0 || nv_nenq == 0) && ((nv_ncalls + nv_nenq >= 1) == (elements > 0))) \
-__CPROVER_ensures(nv_nenq >= 1 ==> (nv_blocked && nv_block_raise == raise && nv_waited_all)) \
-__CPROVER_ensures(nv_thrown ==> (raise && nv_nenq >= 1))
+__CPROVER_ensures(nv_nenq >= 1 ==> (nv_blocked && nv_block_raise == raise && nv_dtor_ran)) \
+__CPROVER_ensures(nv_thrown ==> (raise && nv_nenq >= 1)) \
+__CPROVER_ensures(NV_MAP_G ==> nv_g_seen) \
+__CPROVER_ensures((NV_MAP_G && raise && nv_g_exc) ==> nv_thrown)
 /* preconditions: chunksize >= 1 is map's own documented assert(); pool size >= 1 is the constructor's postcondition
  * (target pool_ctor); when more than one range is generated (chunksize < elements), elements + chunksize must be
  * representable in tsize: it is computed as such for section.reserve, and the last `begin + chunksize` / `begin +=
@@ -137,9 +146,9 @@ __CPROVER_assigns(begin, nv_covered, nv_ncalls, nv_w_begin, nv_w_end, nv_w_tnum)
 __CPROVER_loop_invariant(NV_CHUNK_INV && nv_nenq == 0 && !nv_mutex_held && nv_ncalls <= (uint64_t)begin && (begin > 0 ==> nv_ncalls >= 1)) \
 __CPROVER_decreases(elements > begin ? elements - begin : 0)
 #define NV_LOOP_MAP_CHUNK_PAR \
-__CPROVER_assigns(begin, nv_covered, nv_nenq, nv_w_begin, nv_w_end, self->m_queue.m_tasks.size, section.size, section.first_id) \
+__CPROVER_assigns(begin, nv_covered, nv_nenq, nv_w_begin, nv_w_end, self->m_queue.m_tasks.size, section.size, section.first_id, nv_g_valid) \
 __CPROVER_loop_invariant(NV_CHUNK_INV && nv_ncalls == 0 && nv_mutex_held && !nv_notified && !nv_blocked) \
-__CPROVER_loop_invariant(section.size == nv_nenq && nv_nenq <= (uint64_t)begin && (begin > 0 ==> nv_nenq >= 1)) \
+__CPROVER_loop_invariant(section.size == nv_nenq && nv_nenq <= (uint64_t)begin && (begin > 0 ==> nv_nenq >= 1) && (NV_HOLDS(section.first_id, section.size) ==> nv_g_valid)) \
 __CPROVER_loop_invariant(self->m_queue.m_tasks.size == __CPROVER_loop_entry(self->m_queue.m_tasks.size) + nv_nenq) \
 __CPROVER_loop_invariant(nv_nenq >= 1 ==> section.first_id == self->m_queue.m_tasks.head + __CPROVER_loop_entry(self->m_queue.m_tasks.size)) \
 __CPROVER_decreases(elements > begin ? elements - begin : 0)
@@ -159,9 +168,9 @@ __CPROVER_assigns(index, nv_covered, nv_ncalls, nv_w_begin, nv_w_tnum) \
 __CPROVER_loop_invariant(0 <= index && index == nv_covered && nv_nenq == 0 && !nv_mutex_held && (index <= elements || elements < 0) && nv_ncalls == (uint64_t)index) \
 __CPROVER_decreases(elements > index ? elements - index : 0)
 #define NV_LOOP_MAP_INDEX_PAR \
-__CPROVER_assigns(index, nv_covered, nv_nenq, nv_w_begin, self->m_queue.m_tasks.size, section.size, section.first_id) \
+__CPROVER_assigns(index, nv_covered, nv_nenq, nv_w_begin, self->m_queue.m_tasks.size, section.size, section.first_id, nv_g_valid) \
 __CPROVER_loop_invariant(0 <= index && index <= elements && index == nv_covered && nv_ncalls == 0 && nv_mutex_held && !nv_notified && !nv_blocked) \
-__CPROVER_loop_invariant(section.size == nv_nenq && nv_nenq == (uint64_t)index) \
+__CPROVER_loop_invariant(section.size == nv_nenq && nv_nenq == (uint64_t)index && (NV_HOLDS(section.first_id, section.size) ==> nv_g_valid)) \
 __CPROVER_loop_invariant(self->m_queue.m_tasks.size == __CPROVER_loop_entry(self->m_queue.m_tasks.size) + nv_nenq) \
 __CPROVER_loop_invariant(nv_nenq >= 1 ==> section.first_id == self->m_queue.m_tasks.head + __CPROVER_loop_entry(self->m_queue.m_tasks.size)) \
 __CPROVER_decreases(elements > index ? elements - index : 0)
